@@ -154,6 +154,11 @@ func C15(c *fw.Ctx) {
 			"literal-prop":  {model.Print(model.Obj([]string{"k"}, []*model.N{lit(v)}))},
 			"assigned-prop": {model.Var("ob", model.Obj(nil, nil)), model.ExprS(model.PAsg(model.Id("ob"), "k", lit(v))), model.Print(model.Id("ob"))},
 			"via-variable":  {model.Var("w", lit(v)), model.Print(model.Id("w"))},
+			// what + produced is a text: a further + splices again, it never adds
+			"concat-then-number":       {model.Print(model.Bin("+", model.Grp(model.Bin("+", model.Str(""), lit(v))), model.Num(1)))},
+			"concat-right-then-number": {model.Print(model.Bin("+", model.Grp(model.Bin("+", lit(v), model.Str(""))), model.Num(1)))},
+			"concat-twice":             {model.Print(model.Bin("+", model.Grp(model.Bin("+", model.Str(""), lit(v))), model.Grp(model.Bin("+", lit(v), model.Str("")))))},
+			"accumulated":              {model.Var("acc", model.Str("")), model.ExprS(model.Asg("acc", model.Bin("+", model.Id("acc"), lit(v)))), model.ExprS(model.Asg("acc", model.Bin("+", model.Id("acc"), lit(v)))), model.Print(model.Id("acc"))},
 		}
 		for name, prog := range ctx {
 			src := model.Render(parenAll(prog))
@@ -162,6 +167,11 @@ func C15(c *fw.Ctx) {
 				continue
 			}
 			switch name {
+			case "concat-then-number", "concat-right-then-number", "concat-twice", "accumulated":
+				want := map[string]string{"concat-then-number": text + "1", "concat-right-then-number": text + "1", "concat-twice": text + text, "accumulated": text + text}[name] + "\n"
+				if oc.Stdout != want || oc.Status != 0 {
+					fail(src, oc, "number-"+name, fmt.Sprintf("%q", want), fmt.Sprintf("%q status %d", oc.Stdout, oc.Status))
+				}
 			case "concat", "concat-right", "via-variable":
 				if oc.Stdout != o.Stdout || oc.Status != 0 {
 					fail(src, oc, "number-"+name, fmt.Sprintf("%q as printed alone", o.Stdout), fmt.Sprintf("%q", oc.Stdout))
@@ -295,7 +305,9 @@ func C15(c *fw.Ctx) {
 			{"add-c", func(k float64) []*model.N { return ex(model.PAsg(id("o"), "c", num(k))) }},
 			{"add-a", func(k float64) []*model.N { return ex(model.PAsg(id("o"), "a", num(k))) }},
 			{"set-b", func(k float64) []*model.N { return ex(model.PAsg(id("o"), "b", model.Str("t"))) }},
-			{"print-nested", func(k float64) []*model.N { return pr(model.Arr(id("o"), model.Obj([]string{"in"}, []*model.N{id("o")}))) }},
+			{"print-nested", func(k float64) []*model.N {
+				return pr(model.Arr(id("o"), model.Obj([]string{"in"}, []*model.N{id("o")})))
+			}},
 		}
 		arrSteps := []step{
 			{"print", func(k float64) []*model.N { return pr(id("o")) }},
@@ -303,7 +315,9 @@ func C15(c *fw.Ctx) {
 			{"remove-first", func(k float64) []*model.N { return ex(model.Asg("o", model.CallN(model.BiRemove, id("o"), num(0)))) }},
 			{"store", func(k float64) []*model.N { return ex(model.IAsg(id("o"), num(0), model.Str(""))) }},
 			{"length", func(k float64) []*model.N { return pr(model.CallN(model.BiLen, id("o"))) }},
-			{"print-nested", func(k float64) []*model.N { return pr(model.Arr(id("o"), model.Obj([]string{"in"}, []*model.N{id("o")}))) }},
+			{"print-nested", func(k float64) []*model.N {
+				return pr(model.Arr(id("o"), model.Obj([]string{"in"}, []*model.N{id("o")})))
+			}},
 		}
 		maxLen := 4
 		if !c.Quick() {
